@@ -269,82 +269,10 @@ Proof.
   rewrite (inv_run w es [] _ _ (inv_init w) WT IG). reflexivity.
 Qed.
 
-(** the R05 monitor on the model = late stamping *)
+(** clause 1 of the R05 monitor on the model = the early-stamping bookkeeping *)
 Lemma fold_R_steps w : forall xs m g, R m g ->
-  R (fold_left (m05m_step w) xs m) (fold_left (g05_step true w) xs g).
+  R (fold_left (m05m_step w) xs m) (fold_left (g05_step false w) xs g).
 Proof. induction xs as [|x t IH]; intros m g H; cbn [fold_left]; [exact H|]. apply IH, R_step, H. Qed.
-
-Theorem mon05_model_late w es :
-  mon05_model w es = dedupZ (g_viol (fold_left (g05_step true w) (run_x w es) g05_init)).
-Proof.
-  unfold mon05_model. f_equal.
-  assert (R0 : R m05_init g05_init) by (unfold R; cbn; auto).
-  destruct (fold_R_steps w (run_x w es) _ _ R0) as (_ & _ & _ & D). exact D.
-Qed.
-
-(** schedules on which both stampings coincide *)
-Definition quiet_step (g : g05) (x : op * (state * state * out)) : bool :=
-  let '(e, (s0, s1, _)) := x in
-  match e with
-  | OGetConsume tid =>
-      match assoc (g_gets g) tid with
-      | Some (_, p0) => Nat.eqb p0 (s_pushbacks s1)
-      | None => true
-      end
-  | OFindMissing ds => Nat.leb (length ds) 1 || Nat.eqb (s_pushbacks s0) (s_pushbacks s1)
-  | _ => true
-  end.
-Fixpoint quiet_run (w : world) (g : g05) (xs : list (op * (state * state * out))) : bool :=
-  match xs with
-  | [] => true
-  | x :: t => quiet_step g x && quiet_run w (g05_step false w g x) t
-  end.
-(** no push-back between the opening and the consumption of a reader, and
-    no push-back inside a FindMissing call with more than one digest *)
-Definition quiet05 (w : world) (es : list op) : bool := quiet_run w g05_init (run_x w es).
-
-Lemma quiet_step_eq w g x : quiet_step g x = true -> g05_step true w g x = g05_step false w g x.
-Proof.
-  destruct x as [e [[s0 s1] mo]]. unfold quiet_step, g05_step.
-  destruct e; auto.
-  - destruct (assoc (g_gets g) tid) as [[oi p0]|]; [|auto].
-    intros H. apply Nat.eqb_eq in H. subst p0. reflexivity.
-  - intros H. destruct mo; auto. destruct (Z.eqb code 0); [|auto]. cbv zeta. cbn [orb].
-    destruct (Nat.leb (length ds) 1); [reflexivity|]. cbn [orb] in H. apply Nat.eqb_eq in H. rewrite H. reflexivity.
-Qed.
-
-Lemma quiet_fold w : forall xs g, quiet_run w g xs = true ->
-  fold_left (g05_step true w) xs g = fold_left (g05_step false w) xs g.
-Proof.
-  induction xs as [|x t IH]; intros g H; cbn [fold_left]; [reflexivity|].
-  cbn [quiet_run] in H. apply andb_true_iff in H. destruct H as [H1 H2].
-  rewrite (quiet_step_eq w g x H1). apply IH, H2.
-Qed.
-
-Theorem model_monitor_silent_quiet w es :
-  wf_tids es = true -> integ w (init_state (w_cfg w)) es -> quiet05 w es = true ->
-  mon05_model w es = [].
-Proof.
-  intros WT IG Q. rewrite mon05_model_late. unfold quiet05 in Q. rewrite (quiet_fold w _ _ Q).
-  apply (early_monitor_silent w es WT IG).
-Qed.
-
-(** clauses 2-4 need the device write counter, which the model does not
-    predict: on the model's own observations only clause 1 can be reported *)
-Lemma g_viol_only_1 late w g x :
-  Forall (eq 1%Z) (g_viol g) -> Forall (eq 1%Z) (g_viol (g05_step late w g x)).
-Proof.
-  intros H. destruct x as [e [[s0 s1] mo]]. unfold g05_step.
-  assert (A : Forall (eq 1%Z) (g_viol (g_addviol g [1%Z]))).
-  { cbn. apply Forall_app. split; [exact H|constructor; [reflexivity|constructor]]. }
-  destruct e; auto.
-  - destruct mo; cbn [g_viol g_setgets]; auto;
-      match goal with |- context [if ?b then _ else _] => destruct b end; auto.
-  - destruct (assoc (g_gets g) tid) as [[oi p0]|]; [|auto]. destruct (out_ok mo); cbn; auto.
-  - destruct mo; auto. destruct (Z.eqb code 0); [|auto]. cbv zeta.
-    match goal with |- context [g_touch_all ?a ?b ?d ?g0] => destruct (touch_all_spec a b d g0) as (_ & _ & D & _); rewrite D end.
-    match goal with |- context [if ?b then _ else _] => destruct b end; auto.
-Qed.
 
 Lemma dedupZ_in z l : In z (dedupZ l) -> In z l.
 Proof.
@@ -352,12 +280,31 @@ Proof.
   destruct (existsb (Z.eqb x) t); [intros H; right; auto|].
   intros [H|H]; [left; exact H|right; auto].
 Qed.
-
-Theorem model_reports_only_clause_1 w es : forall z, In z (mon05_model w es) -> z = 1%Z.
+Lemma dedupZ_nil l : dedupZ l = [] -> l = [].
 Proof.
-  intros z H. rewrite mon05_model_late in H. apply dedupZ_in in H.
-  assert (F : forall xs g, Forall (eq 1%Z) (g_viol g) -> Forall (eq 1%Z) (g_viol (fold_left (g05_step true w) xs g))).
-  { induction xs as [|x t IH]; intros g HG; cbn [fold_left]; [exact HG|]. apply IH, g_viol_only_1, HG. }
-  specialize (F (run_x w es) g05_init (Forall_nil _)).
-  rewrite Forall_forall in F. symmetry. apply F, H.
+  induction l as [|x t IH]; cbn; [auto|].
+  destruct (existsb (Z.eqb x) t) eqn:E; [|discriminate].
+  intros H. specialize (IH H). subst t. discriminate.
+Qed.
+
+(** on the model's own observations, for ALL schedules: whatever the monitor
+    reports is clause 5, clause 6, or a clause 1 that the early-stamping
+    bookkeeping reports too; clauses 2, 3, 4 are never reported *)
+Theorem mon05_model_clauses w es z :
+  In z (mon05_model w es) -> (z = 1%Z /\ mon05_early w es <> []) \/ z = 5%Z \/ z = 6%Z.
+Proof.
+  intros H. unfold mon05_model in H. apply dedupZ_in in H.
+  assert (R0 : R m05_init g05_init).
+  { unfold R, V; cbn. repeat split; auto. intros ? []. }
+  destruct (fold_R_steps w (run_x w es) _ _ R0) as (_ & _ & _ & D).
+  destruct (D z H) as [[-> H1]|H1]; [|right; exact H1].
+  left. split; [reflexivity|]. unfold mon05_early. intros E. apply dedupZ_nil in E. rewrite E in H1. destruct H1.
+Qed.
+
+Theorem model_satisfies_C05 w es :
+  wf_tids es = true -> integ w (init_state (w_cfg w)) es ->
+  forall z, In z (mon05_model w es) -> z = 5%Z \/ z = 6%Z.
+Proof.
+  intros WT IG z H. destruct (mon05_model_clauses w es z H) as [[_ N]|H1]; [|exact H1].
+  exfalso. apply N. apply early_monitor_silent; assumption.
 Qed.
